@@ -83,6 +83,20 @@ type CallEvent struct {
 	NoHavoc   bool
 }
 
+// named: is this a logged call of the method, function or func-typed field
+// of that name (ncallsOf, ncallsAfter, lastOf)?
+func (ev *CallEvent) named(n string) bool {
+	if ev.Method == n || (ev.Static != nil && ev.Static.Name() == n) {
+		return true
+	}
+	if ev.Kind == "fn" {
+		if i := strings.LastIndex(ev.Desc, "."); i >= 0 && ev.Desc[i+1:] == n {
+			return true
+		}
+	}
+	return false
+}
+
 type deferRec struct {
 	call *ssa.CallCommon
 	args []Val
